@@ -209,6 +209,11 @@ func (fi *FileInfo) MakeReader(opt *ReaderOptions) (*Reader, error) {
 	if shouldExit(err) {
 		return nil, err
 	} else if r.meta.Catalog == nil || r.meta.Catalog.Pages == 0 {
+		if err == nil {
+			err = &MalformedFileError{
+				Err: errors.New("no pages in PDF document catalog"),
+			}
+		}
 		return nil, err
 	}
 	if r.meta.Catalog.Version > r.meta.Version {
